@@ -187,9 +187,14 @@ class Ctx:
             if m and coverage and m.group(2) == "0" and m.group(3) == "0":
                 r.coverage_zero.append(m.group(1))
         if simulate is not None and r.generated == 0:
-            m = re.search(r"(\d+) states checked", out)
+            # the final count, not a `Progress:` line: those are printed once a minute, so the first of them says how fast
+            # the machine is, not how much was explored (the same seed explores the same behaviours everywhere)
+            m = re.search(r"The number of states generated: (\d+)", out)
+            ms = re.findall(r"(\d+) states checked", out)
             if m:
                 r.generated = int(m.group(1))
+            elif ms:
+                r.generated = int(ms[-1])
         if r.violated is None and not r.postcondition_failed:
             if "Error:" in out or p.returncode not in (0,):
                 # deadlock, evaluation error, parse error ...
